@@ -37,7 +37,8 @@ impl FileSystem for PhysicalFS {
         let entries = Box::new(
             self.get_path(path)
                 .read_dir()?
-                .map(|entry| entry.unwrap().file_name().into_string().unwrap()),
+                .filter_map(|entry| entry.ok())
+                .map(|entry| entry.file_name().to_string_lossy().into_owned()),
         );
         Ok(entries)
     }
